@@ -132,3 +132,77 @@ package server
 //@   assigns se.stmts[le32(data)].args[int(le16at(data, 4))]
 //@   ensures case unknown: len(data) >= 6 && !old(has(se.stmts, le32(data))) ==> ret0 != nil
 //@   ensures case range:   ret0 == nil ==> old(has(se.stmts, le32(data)) && int(le16at(data, 4)) < se.stmts[le32(data)].paramCount)
+
+// ---------------------------------------------------------------- C31 online reload (sequential histories)
+// The manager keeps two generations; genIdx names the active one, the other one is the staging area of a prepare.
+//@ pure genIdx(m *Manager) int = ite(m.switchIndex.index == 1, 1, 0)
+//@ pure prepared(m *Manager) bool = m.reloadPrepared.int32 != 0
+//@ pure mgrWF(m *Manager) bool = m != nil && m.namespaces[0] != nil && m.namespaces[1] != nil && m.users[0] != nil && m.users[1] != nil && m.statistics != nil
+//@        && (m.switchIndex.index == 0 || m.switchIndex.index == 1) && m.statistics.SQLResponsePercentile != nil
+//@        && (m.reloadPrepared.int32 == 0 || m.reloadPrepared.int32 == 1) && (prepared(m) ==> m.preparedName == prepName)
+// ghost: the namespace name of the last successful prepare
+//@ ghost prepName string
+//@ constglobal errors.ErrNamespaceNotPrepared
+//@ axiom errNotPreparedNonNil: errors.ErrNamespaceNotPrepared != nil
+// the namespace is configured in generation nm
+//@ pure nsPresent(nm *NamespaceManager, name string) bool = has(nm.namespaces, name) && nm.namespaces[name] != nil
+
+// helpers that build or edit a generation copy never write the manager's own fields (assumed frames, listed)
+//@ func ShallowCopyNamespaceManager
+//@   assigns \nothing
+//@   ensures ret0 != nil && fresh(ret0)
+//@ func (*NamespaceManager).RebuildNamespace
+//@   assigns mapof(n.namespaces)
+//@   ensures ret0 == nil ==> nsPresent(n, config.Name)
+//@ func (*NamespaceManager).DeleteNamespace
+//@   assigns mapof(n.namespaces)
+//@ func CloneUserManager
+//@   assigns \nothing
+//@   ensures ret0 != nil && fresh(ret0)
+//@ func (*UserManager).RebuildNamespaceUsers
+//@   assigns mapof(u.users), mapof(u.userNamespaces)
+//@ func (*UserManager).ClearNamespaceUsers
+//@   assigns mapof(u.users), mapof(u.userNamespaces)
+//@ func NewSQLResponse
+//@   assigns \nothing
+//@ func (*Manager).clearBackendConnectPoolMetrics
+//@   assigns \nothing
+//@ func (*Namespace).Init
+//@   assigns n.namespaceChangeIndex
+//@ func (*NamespaceManager).GetNamespace
+//@   requires n != nil
+//@   assigns \nothing
+//@   ensures ret0 == ite(has(n.namespaces, namespace), n.namespaces[namespace], nil)
+//@ func (*Manager).GetNamespace
+//@   requires mgrWF(m)
+//@   assigns \nothing
+//@   ensures ret0 == ite(has(m.namespaces[genIdx(m)].namespaces, name), m.namespaces[genIdx(m)].namespaces[name], nil)
+
+//@ property C31: (*NamespaceManager).GetNamespace, (*Manager).GetNamespace, (*Manager).ReloadNamespacePrepare, (*Manager).ReloadNamespaceCommit, (*Manager).DeleteNamespace
+
+// prepare stages a copy in the inactive generation and never touches the active one
+//@ func (*Manager).ReloadNamespacePrepare
+//@   mode int wraps
+//@   requires mgrWF(m) && namespaceConfig != nil
+//@   ghost-update after call (*sync2.AtomicBool).Set#0: prepName = name
+//@   ensures case wf:       ret0 == nil ==> m.preparedName == prepName
+//@   ensures case active:   genIdx(m) == old(genIdx(m)) && m.namespaces[genIdx(m)] == old(m.namespaces[genIdx(m)]) && m.users[genIdx(m)] == old(m.users[genIdx(m)])
+//@   ensures case prepared: ret0 == nil ==> prepared(m) && prepName == old(namespaceConfig.Name)
+//@   ensures case staged:   ret0 == nil ==> fresh(m.namespaces[1 - genIdx(m)]) && fresh(m.users[1 - genIdx(m)])
+//@   ensures case failed:   ret0 != nil ==> prepared(m) == old(prepared(m)) && m.namespaces[1 - genIdx(m)] == old(m.namespaces[1 - genIdx(m)])
+
+// commit activates the staged generation exactly when a prepare is pending -- and only for the prepared namespace
+//@ func (*Manager).ReloadNamespaceCommit
+//@   requires mgrWF(m)
+//@   ensures case notprepared: !old(prepared(m)) ==> ret0 != nil && genIdx(m) == old(genIdx(m)) && !prepared(m)
+//@   ensures case othername:   old(prepared(m)) && name != old(prepName) ==> ret0 != nil && genIdx(m) == old(genIdx(m)) && prepared(m)
+//@   ensures case switch:      old(prepared(m)) && name == old(prepName) ==> ret0 == nil && genIdx(m) == 1 - old(genIdx(m)) && !prepared(m)
+//@   ensures case generations: m.namespaces[0] == old(m.namespaces[0]) && m.namespaces[1] == old(m.namespaces[1]) && m.users[0] == old(m.users[0]) && m.users[1] == old(m.users[1])
+//@   ensures case samename:    ret0 == nil ==> name == prepName
+
+// delete stages a copy without the namespace, activates it, and invalidates any pending prepare
+//@ func (*Manager).DeleteNamespace
+//@   requires mgrWF(m)
+//@   ensures case absent:  !old(nsPresent(m.namespaces[genIdx(m)], name)) ==> ret0 == nil && genIdx(m) == old(genIdx(m)) && m.namespaces[0] == old(m.namespaces[0]) && m.namespaces[1] == old(m.namespaces[1])
+//@   ensures case switch:  old(nsPresent(m.namespaces[genIdx(m)], name)) ==> ret0 == nil && genIdx(m) == 1 - old(genIdx(m)) && fresh(m.namespaces[genIdx(m)]) && fresh(m.users[genIdx(m)])
+//@   ensures case invalidates: old(nsPresent(m.namespaces[genIdx(m)], name)) ==> !prepared(m)
